@@ -298,7 +298,7 @@ def check(pid, tier, verif_seed, budget_s=None, nworkers=None, max_runs=None):
     # 6. evidence
     wall = time.monotonic() - t_start
     runs_per_hour = agg["runs"] / max(explore_wall, 1e-9) * 3600.0
-    zero_probes = [p for p in getattr(prop, "PROBES", []) if agg["reach"].get(p, 0) == 0]
+    zero_probes = [p for p in getattr(prop, "PROBES", []) if agg["reach"].get(p, 0) == 0 and agg["faults"].get(p, 0) == 0]
     if tier == "thorough" and zero_probes:
         log("WARNING: probes stuck at zero: " + ", ".join(zero_probes))
     ev = {
